@@ -125,8 +125,47 @@ def job_boundaries(ctx, jr, own, n, D):
     H.finish_job(jr, e, res)
 
 
+def ifelse_panel():
+    """if / elseif / else chains with observable conditions (probe <tag> <value> records itself and returns the value), every chain shape
+    with up to two elseif lines and an optional else, nested once, every truth assignment; expected trace = first true branch only,
+    conditions evaluated up to and including it"""
+    import itertools
+    cases = []
+    for n_elif in (0, 1, 2):
+        for has_else in (False, True):
+            for vals in itertools.product(['true', 'false'], repeat=1 + n_elif):
+                for end_kw in ('end', 'end_if'):
+                    lines = ['if probe a ${c0}', 'emit A']
+                    for j in range(n_elif): lines += ['%s probe %s ${c%d}' % (('elseif', 'else_if')[j % 2] if False else 'elseif', 'bc'[j], j + 1), 'emit %s' % 'BC'[j]]
+                    if has_else: lines += ['else', 'emit D']
+                    lines += [end_kw, 'emit Z']
+                    # nested copy inside the first branch
+                    trace = ''; taken = False
+                    for j, v_ in enumerate(vals):
+                        if taken: break
+                        trace += 'abc'[j]
+                        if v_ == 'true': trace += 'ABC'[j]; taken = True
+                    if not taken and has_else: trace += 'D'
+                    trace += 'Z'
+                    cases.append(dict(kind='c04_l2', script=lines, vars={'c%d' % j: v_ for j, v_ in enumerate(vals)}, array=[], expected_trace=trace))
+    # a chain inside a loop (the bookkeeping must not leak from one pass to the next) and inside another if
+    for vals in itertools.product(['true', 'false'], repeat=2):
+        lines = ['for i in ${arr}', 'if probe a ${c0}', 'emit A', 'elseif probe b ${c1}', 'emit B', 'else', 'emit D', 'end', 'end', 'emit Z']
+        one = 'a' + ('A' if vals[0] == 'true' else 'b' + ('B' if vals[1] == 'true' else 'D'))
+        cases.append(dict(kind='c04_l2', script=lines, vars={'c0': vals[0], 'c1': vals[1]}, array=['p', 'q'], expected_trace=one * 2 + 'Z'))
+        lines = ['if true', 'if probe a ${c0}', 'emit A', 'elseif probe b ${c1}', 'emit B', 'end', 'emit Y', 'else', 'emit D', 'end', 'emit Z']
+        cases.append(dict(kind='c04_l2', script=lines, vars={'c0': vals[0], 'c1': vals[1]}, array=[], expected_trace='a' + ('A' if vals[0] == 'true' else 'b' + ('B' if vals[1] == 'true' else '')) + 'YZ'))
+    return cases
+
+
 def replayer(v):
     """run the program natively: every block keyword gets a trivially true/empty header and each line records itself"""
+    if v.get('kind') == 'lemma':
+        n = 0
+        for case in ifelse_panel():
+            got = replayer(case); n += 1
+            if got[0]: v['native'] = case.get('native'); v['case'] = {k: x for k, x in case.items() if k != 'native'}; return (True, 'chain %r with %r: %s' % (' | '.join(case['script']), case['vars'], got[1]))
+        return (False, '%d if / elseif / else chains run as the abstract machine natively' % n)
     if v.get('kind') == 'c04_l2':
         script = 'arr = array %s\n' % ' '.join(v['array']) + '\n'.join(v['script'])
         out = H.replay(dict(mode='scripted_sdk', script=script, vars=v['vars'], recorders=['emit'], recorder_output='', probes=['probe'])); v['native'] = out
@@ -163,6 +202,7 @@ def main(tier, seed):
     for own in (IF, WHILE, FOR): chk.job(job_boundaries, 'L1:%s' % KNAMES[own], own=own, n=n, D=D)
     nprog = 144 if tier == 'quick' else 600
     seeds = [seed * 100000 + i for i in range(nprog)]
+    chk.job(job_ifelse_steps, 'step/if, elseif, else')
     for gi in range(12): chk.job(job_runs, 'L2:programs/%d' % gi, seeds=seeds[gi::12], depth=2 if tier == 'quick' else 3, size=7 if tier == 'quick' else 10)
     chk.bounds = dict(layer1='opener at line 0 followed by <= %d symbolic lines, nesting <= %d, every alias / full-name spelling of every block keyword' % (n - 1, D),
                       layer2='%d generated well-nested programs (if/elseif/else, while, for-in, emit, set), each run for every assignment of its condition variables and array length; array items symbolic' % nprog)
@@ -387,3 +427,102 @@ def _walk(prog):
             if s_[2]: yield from _walk(s_[2])
         elif s_[0] == 'while': yield from _walk(s_[2])
         elif s_[0] == 'for': yield from _walk(s_[3])
+
+
+# ---------------------------------------------------------------------- step lemmas: if / elseif / else as single steps
+IFM = 'sdk::std::flowcontrol::ifelse'
+
+
+def job_ifelse_steps(ctx, jr):
+    """if, elseif and else as single steps from an arbitrary call-info stack (entries stored by the real store_call_info from symbolic
+    values), with the block boundaries (get_or_create_if_meta_info_for_line: layer 1 decides them) and the condition value
+    (eval_condition: C06) as arbitrary results. Abstract machine: `taken` = an earlier branch of this chain already ran;
+    if: run the body iff the condition holds; elseif: iff not taken and the condition holds (not evaluated when taken); else: iff not
+    taken; a branch that does not run jumps to the next branch line, or behind the end of the block."""
+    from mirsym.harness import NotRecognised
+    jr.bounds = dict(else_lines='0..2 per block (symbolic line numbers)', call_info_stack='0..1 arbitrary entries below the one concerned', condition='arbitrary result (true / false / error)',
+                     claim='one-step lemmas; a chain of any length is their iteration (DESIGN.md 8.20); block boundaries come from layer 1')
+    CONT, GOTO, ERR = 0, 1, 2
+
+    def setup(e, below, with_top):
+        st = State(True, {}); st.m[(0, 'state')] = M([])
+        L0 = e.fresh_int('M.start', 0, 40); k = e.fresh_int('M.k', 0, 2); e1 = e.fresh_int('M.e1', 0, 50); e2 = e.fresh_int('M.e2', 0, 60); end = e.fresh_int('M.end', 0, 70)
+        e.assume(z3.And(L0 < e1, e1 < e2, e2 < end))
+        Mv = T([L0, end, V(k, [e1, e2])], IFM + '::IfElseMetaInfo')
+        entries = []
+        def mk_entry(tag, current=None, meta=None, idx=None):
+            ci = dict(current=current if current is not None else e.fresh_int(tag + '.current', 0, 70), passed=e.fresh_bool(tag + '.passed'),
+                      idx=idx if idx is not None else e.fresh_int(tag + '.idx', 0, 1), meta=meta if meta is not None else T([e.fresh_int(tag + '.ms', 0, 40), e.fresh_int(tag + '.me', 41, 70), V(0, [])], IFM + '::IfElseMetaInfo'))
+            st.m[(0, 'ci')] = T([ci['current'], ci['passed'], ci['idx'], ci['meta'], S(0, [])], IFM + '::CallInfo')
+            e.run_call(IFM + '::store_call_info', st, [P(0, 'ci'), P(0, 'state')], 'sdk')
+            return ci
+        for b_ in range(below): entries.append(mk_entry('below%d' % b_))
+        top = None
+        if with_top:
+            i = e.fresh_int('top.idx', 0, 1); e.assume(i < k)
+            top = mk_entry('top', current=zite(zeq(i, 0), e1, e2), meta=Mv, idx=i)
+        st.m[(0, 'vars')] = M([]); st.m[(0, 'cmds')] = T([M([]), M([])], 'types::command::Commands'); st.m[(0, 'env')] = T([Opaque('out'), Opaque('err'), e.alloc(st, False)], 'types::env::Env')
+        return st, (L0, k, e1, e2, end, Mv), entries, top
+
+    def pop_for(e, st, line): return e.run_call(IFM + '::pop_call_info_for_line', st, [line, P(0, 'state')], 'sdk')
+
+    def entry_is(r, current, passed, Mv, idx=None):
+        if 1 not in r.p: return False
+        c = r.p[1][0]
+        cs = [zeq(r.d, 1), zeq(c.f[0], current), zeq(c.f[1], passed), deep_eq(c.f[3], Mv)]
+        if idx is not None: cs.append(zeq(c.f[2], idx))
+        return zand(*cs)
+
+    def goto_is(rv, line): return zand(zeq(rv.d, GOTO), zeq(rv.p[GOTO][1].d, 1), zeq(rv.p[GOTO][1].p[1][0], line)) if GOTO in rv.p else False
+    for cmd in ('if', 'elseif', 'else'):
+        for below in (0, 1):
+            e = ctx.engine(unwind=8, max_rec=6); e.int_digits = 2; t0 = time.time()
+            st, (L0, k, e1, e2, end, Mv), entries, top = setup(e, below, cmd != 'if')
+            ck = e.fresh_int('condition', 0, 2)          # 0 false, 1 true, 2 error
+            mk = e.fresh_bool('meta.err')
+            calls = {'cond': [], 'meta': []}
+            def h_meta(eng, st1, a, callee):
+                calls['meta'].append((st1.g, a[0])); return E('std::result::Result', zite(mk, 1, 0), {0: [Mv], 1: [mk_str('no end')]})
+            def h_cond(eng, st1, a, callee):
+                calls['cond'].append(st1.g); return E('std::result::Result', zite(zeq(ck, 2), 1, 0), {0: [zeq(ck, 1)], 1: [mk_str('bad condition')]})
+            e.hooks[IFM + '::get_or_create_if_meta_info_for_line'] = h_meta; e.hooks['utils::condition::eval_condition'] = h_cond
+            ty = IFM + {'if': '::IfCommand', 'elseif': '::ElseIfCommand', 'else': '::ElseCommand'}[cmd]
+            f = e.find_method(ty, 'Command', 'run', 'sdk')
+            if f is None: raise NotRecognised('no run impl for ' + ty)
+            line = L0 if cmd == 'if' else top['current']
+            argv = V(0 if cmd == 'else' else 1, [mk_str('c')])
+            ctxv = T([argv, P(0, 'state'), P(0, 'vars'), none(), PV(V(0, [])), P(0, 'cmds'), line, P(0, 'env')], 'types::command::CommandInvocationContext')
+            rs, rv = e.call_fn(f, st, [PV(T([mk_str('std::flowcontrol')], ty)), ctxv])
+            if rs is None: raise Abort('%s never returns' % cmd)
+            obs = []
+            taken = False if cmd == 'if' else top['passed']
+            idx = 0 if cmd == 'if' else top['idx']
+            # next branch line after this one (if any)
+            nxt_i = 0 if cmd == 'if' else idx + 1
+            has_next = nxt_i < k if cmd == 'if' else (idx + 1 < k)
+            next_line = (e1 if cmd == 'if' else e2)          # idx 0 -> next is e2; for `if` the first branch line is e1
+            cond_true = zeq(ck, 1); cond_false = zeq(ck, 0)
+            if cmd == 'if':
+                for g_, ln in calls['meta']: obs.append((g_, zeq(ln, L0), 'the block boundaries are looked up for the line of the if'))
+                obs.append((zand(rs.g, mk), zor(zeq(rv.d, ERR), zeq(rv.d, 3)), 'a block without end is an error or a crash, never a silent run'))
+                ok = znot(mk)
+            else: ok = True
+            runs = zand(ok, znot(taken), cond_true) if cmd != 'else' else zand(ok, znot(taken))
+            skips = zand(ok, zor(taken, cond_false)) if cmd != 'else' else zand(ok, taken)
+            obs.append((zand(rs.g, runs), zeq(rv.d, CONT), 'the branch runs: control falls into its body'))
+            if cmd != 'else':
+                obs.append((zand(rs.g, ok, znot(taken), zeq(ck, 2)), zeq(rv.d, ERR), 'an invalid condition is the error result'))
+                for g_ in calls['cond']: obs.append((g_, znot(taken), 'the condition is not evaluated once an earlier branch ran'))
+                obs.append((zand(ok, znot(taken)), zor(*calls['cond']) if calls['cond'] else False, 'otherwise the condition is evaluated'))
+            where = zite(zand(znot(taken), has_next), next_line, end + 1) if cmd != 'else' else end + 1
+            obs.append((zand(rs.g, skips), goto_is(rv, where), 'the branch does not run: jump to the next branch line, or behind the end of the block (always behind the end once a branch ran)'))
+            # the bookkeeping that later branch lines rely on
+            if cmd != 'else':
+                r_next = pop_for(e, rs, next_line)
+                obs.append((zand(rs.g, runs, has_next), entry_is(r_next, next_line, True, Mv), 'after a branch ran the next branch line finds "taken"'))
+                obs.append((zand(rs.g, ok, znot(taken), cond_false, has_next), entry_is(r_next, next_line, False, Mv, nxt_i), 'after a false condition the next branch line finds "not taken" and its own position'))
+            for g, cnd, msg in obs: e.obligations.append(Obligation(g, cnd, 'C04 %s lemma (%d below): %s' % (cmd, below, msg), 'assert', 'oracle'))
+            jr.symex_time += time.time() - t0
+            res = discharge_known(e, jr, PID, {}, lambda m, o=None, cmd=cmd: dict(kind='lemma', level='ifelse', step=cmd))
+            witness(jr, e, '%s lemma: the branch is skipped because an earlier one ran' % cmd, zand(rs.g, taken) if cmd != 'if' else zand(rs.g, cond_false, k >= 1), lambda m, o=None: dict(kind='lemma', level='ifelse'))
+            H.finish_job(jr, e, res)
